@@ -507,4 +507,38 @@ PLANS["C14"] = {
     "assumptions": ["dump via public read API", "EGraph::get_size reports live rows"],
 }
 
+def relmon(bin_dir, label, seed, n, ops=60, threads=1, env=None, profile="release", timeout=3000):
+    exe = os.path.join(os.path.dirname(bin_dir), profile, "relmon")
+    argv = [exe, "c16", "--seed", str(seed), "--n", str(n), "--ops", str(ops), "--threads", str(threads), "--out", "{out}"]
+    return {"label": label, "argv": argv, "env": env or {}, "timeout": timeout, "on_crash": "violation"}
+
+
+def c16_jobs(tier, seed, bin_dir, replay):
+    q = tier == "quick"
+    k = 4 if q else 16
+    per = 1500 if q else 40000
+    js = [relmon(bin_dir, f"relmon-s{i}", seed * 1000 + i, per, ops=(60 if i % 2 == 0 else 200)) for i in range(k)]
+    # parallel table operations (cut-offs 0) inside a 4-thread pool
+    js.append(relmon(bin_dir, "relmon-par4", seed * 1000 + 99, 300 if q else 8000, threads=4, env=ALL_ZERO))
+    if not q:
+        # production profile: internal debug assertions compiled out, so a stale read is a wrong answer, not a panic
+        js += [relmon(bin_dir, f"relmon-fast-s{i}", seed * 1000 + 50 + i, per, ops=120, profile="fast") for i in range(4)]
+    return js
+
+
+PLANS["C16"] = {
+    "jobs": c16_jobs,
+    "packages": ("relmon",),
+    "extra_builds": {"thorough": [("fast", ("relmon",))]},
+    "engine": "relmon",
+    "level": "exploration",
+    "rule": "random operation sequences (staged inserts/removals through several buffers dropped in random order, merge_all/merge_table, clear_table, unions + value-level rebuild against the union-find table, clone-and-continue, cached query plans re-instantiated and run) on 1-3 SortedWritesTables (0..4 keys, with/without sort column, merge = last/min/keep-old) plus the DisplacedTable, compared after every visible step with a BTreeMap model: len, full scan, get_row, constrained scans, fast_subset, updates_since, index-backed 1- and 2-atom queries. Non-trivial = sequence ending with a non-empty table; distinct by final model contents.",
+    "technique": "model-based sequence checking at every step (BTreeMap reference model) through core-relations' public API, incl. index-backed rule-set queries from cached plans; serial, 4-thread/cut-off-0 and assertion-free builds",
+    "level_text": "Thousands of random operation sequences (60 and 200 operations) drive Database / SortedWritesTable / DisplacedTable through the public API while a 40-line map model is updated in step; after every visible operation every read the property lists is compared with the model: len, point lookups of present and absent keys, full scans (each live row once), scans under Eq/EqConst/Lt/Le/Gt/Ge constraints on the sort column and on others, fast_subset, updates_since within a major generation, and one- and two-atom queries through cached hash indexes whose plans were compiled earlier and are re-instantiated against the current database. Sequences cross the compaction threshold and bump generations between an index build and its next use.",
+    "level_note": "The harness follows the documented protocol (buffers are dropped before anything that merges; RuleSets are one-shot, CachedPlans long-lived; extra constraints on cached plans are sort-column comparisons; non-commutative merge functions get one write per key per round; rebuilt tables use a commutative merge). Those are restrictions of the generator, not of the oracle.",
+    "floors": {"quick": {"steps_checked": 100000, "reads": 3000000, "rule_set_queries": 200000, "rule_set_queries_nonempty": 60000, "rebuilds": 15000, "clones": 8000, "generation_bumps_observed": 500, "path:table_parallel_insert": 1},
+               "thorough": {"steps_checked": 5000000, "reads": 150000000, "rule_set_queries": 10000000, "rule_set_queries_nonempty": 3000000, "rebuilds": 700000, "clones": 400000, "generation_bumps_observed": 25000, "path:table_parallel_insert": 100}},
+    "assumptions": ["model = BTreeMap<key,row> + min-leader union-find in harness/relmon/src/main.rs"],
+}
+
 NOT_APPLICABLE = {}
